@@ -9,7 +9,7 @@ ENGINE = {
     "xspace": "E1 exhaustive enumeration of finite products of alphabets on the real code vs reference model",
     "words": "E2 exhaustive words over {<,=,>} / NaN masks against a spec automaton (product exploration)",
     "histories": "E3 breadth-first search over operation histories on one live interpolator",
-    "schedules": "E4 shuttle DFS over all thread interleavings at the hook scheduling points",
+    "schedules": "E4 shuttle DFS (unbounded or preemption-bounded) over thread interleavings at hook points and, on the instrumented build (mc/c17s, mc/verif_std, tools/instrument.sh), at every atomic / lock operation",
 }
 
 # id -> (engine, technique, level text, level note, design ref)
@@ -65,9 +65,9 @@ CHECKS = {
     "C14": ("xspace", "bounded-exhaustive enumeration of buffer shape variants x entry points x ranks on poisoned windows; oracle: correct shape => filled exactly, wrong shape => never Ok",
             "Every wrong buffer shape of the alphabet (each axis +-1, permutations, wrong rank, same element count) must be rejected, every right one filled completely with the surrounding poison intact.",
             "panic is the documented rejection", "5/C14"),
-    "C17": ("histories", "BFS over all operation histories up to the depth bound on one live interpolator (state fingerprint + per-step oracle) and shuttle DFS over all interleavings of 2-3 threads at the hook scheduling points; Send/Sync probed per instantiation",
-            "All histories up to depth 3/4 over a 16-op alphabet incl. failing and panicking calls: every occurrence of an op returns the same bits and the Debug fingerprint never changes; all schedules of small multi-threaded programs at hook granularity return the sequential answers.",
-            "schedules at hook granularity; sequential consistency", "5/C17"),
+    "C17": ("histories", "BFS over all operation histories up to the depth bound on fresh interpolators (per-step oracle); stateless exhaustive / preemption-bounded DFS over thread interleavings (shuttle) at hook points and, on an instrumented build, at every atomic / lock operation; Send/Sync probed per instantiation",
+            "All histories up to depth 3/4 over a 16-op alphabet incl. failing and panicking calls and a sibling interpolator, for 11 interpolators: every occurrence of an op returns the bits of a fresh interpolator. All interleavings (or all with <= 2-3 preemptions) of 2-3-thread programs return the sequential answers, explored twice; the same on a build of the current sources in which std::sync is shuttle's, so every atomic access of the crate is a scheduling point.",
+            "sequential consistency; thread_local! state is not modelled per simulated thread; programs too large for the budget are explored with a preemption bound (reported)", "5/C17 and 9"),
     "C18": ("xspace", "bounded-exhaustive enumeration of recording/failing custom strategies x decision-table inputs x entry points + fault injection at every call index of every batch",
             "A recording strategy observes every argument the library passes it for every input of the decision table and every entry point; a failing strategy fails at every call index; accessors are compared with the inputs.",
             "none beyond the bounds", "5/C18"),
@@ -113,7 +113,7 @@ def main():
             "source_commits": hooks,
             "add_only": True,
         },
-        "engines": [{"name": k, "path": "mc/src", "serves_properties": [c["property_id"] for c in checks if c["engine"] == k], "kind_free_text": v} for k, v in ENGINE.items()],
+        "engines": [{"name": k, "path": "mc/src", "serves_properties": [c["property_id"] for c in checks if c["engine"] == k] + (["C17"] if k == "schedules" else []), "kind_free_text": v} for k, v in ENGINE.items()],
         "checks": checks,
         "notes": "All checks run the real ndarray-interp built from /repo's working tree with the hook cfg on; exit 0 / 1 (+VIOLATION line) / 2 (machinery error). Genuine defects found were repaired by 'fix:' commits in /repo (see KNOWN_FINDINGS.txt).",
         "not_applicable": na,
